@@ -29,8 +29,14 @@ var lockOps = map[string]string{
 func (e *Enc) heldArr(s *State) Term { return e.hget(s, "$held", heldSort) }
 
 // lockTarget resolves the receiver of a lock operation to (object ref, struct type, lock declaration).
+// The receiver is either the address of a mutex field (&x.mu) or the value of a pointer-typed lock field (x.mu).
 func (e *Enc) lockTarget(recv ssa.Value) (obj Term, st types.Type, decl *LockDecl, ok bool) {
 	fa, isFA := recv.(*ssa.FieldAddr)
+	if !isFA {
+		if ld, isLoad := recv.(*ssa.UnOp); isLoad && ld.Op == token.MUL {
+			fa, isFA = ld.X.(*ssa.FieldAddr)
+		}
+	}
 	if !isFA {
 		return "", nil, nil, false
 	}
@@ -53,6 +59,12 @@ func (e *Enc) execLockOp(op string, c *ssa.CallCommon, in ssa.Instruction) bool 
 	}
 	recv := c.Args[0]
 	lref := e.val(recv).T
+	if _, _, d, k := e.lockTarget(recv); !k || d == nil {
+		// a lock that no `lock … protects` declaration mentions (e.g. a per-key user-level mutex handed from one
+		// call to the next): not part of the monitor discipline, no sequential effect
+		e.used["undeclared mutex operations have no effect in the sequential model (their exclusion semantics is sync's)"] = true
+		return true
+	}
 	H := e.heldArr(e.cur)
 	cur := tSel(H, lref)
 	site := e.ordName("lock:" + op)
@@ -110,7 +122,19 @@ func (e *Enc) acquireHavoc(obj Term, st types.Type, decl *LockDecl) {
 		}
 		l := e.fieldLoc(obj, st, i)
 		if l.Heap == "" {
-			continue // nested struct/array: not supported as protected state
+			// nested struct value (e.g. an atomic.Bool): havoc its scalar fields
+			if isu, isS := f.Type().Underlying().(*types.Struct); isS {
+				for fi := 0; fi < isu.NumFields(); fi++ {
+					il := e.fieldLoc(l.Base, f.Type(), fi)
+					if il.Heap == "" {
+						continue
+					}
+					nv := e.fresh("acq_"+f.Name()+"_"+isu.Field(fi).Name(), e.sortOf(isu.Field(fi).Type()))
+					e.store(e.cur, il, nv)
+					e.assume(e.typeFacts(nv, isu.Field(fi).Type(), e.cur))
+				}
+			}
+			continue
 		}
 		nv := e.fresh("acq_"+f.Name(), e.sortOf(f.Type()))
 		e.store(e.cur, l, nv)
@@ -129,6 +153,37 @@ func (e *Enc) acquireHavoc(obj Term, st types.Type, decl *LockDecl) {
 			h := elemHeap(u.Elem())
 			H := e.hget(e.cur, h, hs)
 			e.hset(e.cur, h, hs, tStore(H, sx("s-base", nv), e.fresh("acq_"+f.Name()+"_elems", fmt.Sprintf("(Array Int %s)", e.sortOf(u.Elem())))))
+		}
+	}
+	// `protects Type.field`: that field of every object of another struct type of the same package
+	for _, p := range decl.Protects {
+		if i := strings.Index(p, "."); i > 0 {
+			n, ok := st.(*types.Named)
+			if inst, isN := stripTypeArgs(st).(*types.Named); isN {
+				n, ok = inst, true
+			}
+			if !ok || n.Obj().Pkg() == nil {
+				continue
+			}
+			obj2 := n.Obj().Pkg().Scope().Lookup(p[:i])
+			if obj2 == nil {
+				e.unsupported("protects " + p + ": unknown type")
+				continue
+			}
+			ot := obj2.Type()
+			osu, isS := ot.Underlying().(*types.Struct)
+			if !isS {
+				continue
+			}
+			for fi := 0; fi < osu.NumFields(); fi++ {
+				if osu.Field(fi).Name() == p[i+1:] {
+					hn := fieldHeap(ot, fi)
+					hs := fmt.Sprintf("(Array Int %s)", e.sortOf(osu.Field(fi).Type()))
+					e.heapDecl(hn, hs)
+					e.cur.h[hn] = e.fresh("acq_"+p, hs)
+					e.noteWrite(hn)
+				}
+			}
 		}
 	}
 	// ghost fields of the type are protected by its (single) lock as well when listed
@@ -185,6 +240,9 @@ func (e *Enc) guardCheck(addr ssa.Value, write bool, pos token.Pos) {
 	}
 	obj := e.val(fa.X).T
 	lref := sx("subref", obj, tInt(int64(li)))
+	if _, isPtr := su.Field(li).Type().Underlying().(*types.Pointer); isPtr {
+		lref = e.load(e.cur, e.fieldLoc(obj, st, li))
+	}
 	h := tSel(e.heldArr(e.cur), lref)
 	var goal Term
 	kind := "guard:read"
